@@ -36,8 +36,15 @@ class SourceLinkContainer(LinkContainer):
         if not hasattr(item, "id"):
             raise TypeError("NIX entity or id string required for append")
 
-        if not self._itemstore._parent.find_sources(filtr=lambda x:
-                                                    x.id == item.id):
+        # the source found under that id must be this very object, not merely
+        # a source with the same id (e.g. in an id-keeping copy of the block)
+        h5g = item._h5group
+        mine = h5g.group if hasattr(h5g, "group") else h5g.dataset
+
+        def is_item(src):
+            return src.id == item.id and src._h5group.group == mine
+
+        if not self._itemstore._parent.find_sources(filtr=is_item):
             raise RuntimeError("This item cannot be appended here.")
 
         self._backend.create_link(item, item.id)
